@@ -384,7 +384,12 @@ func runEscape(j *Job, out *Out, workDir string) {
 			eo.Err = err.Error()
 			return
 		}
-		escape.VerifPick = func(kind int, n int, def int) int { return simrt.Pick(9000+kind, n, def) }
+		escape.VerifPick = func(kind int, n int, def int) int {
+			if kind == 1 && j.KeepFuncOrder {
+				return def
+			}
+			return simrt.Pick(9000+kind, n, def)
+		}
 		if j.MonoCheck {
 			escape.VerifMonotonicity(true, func(instr ssa.Instruction, reason string) {
 				mono[fmt.Sprintf("self-check: monotonicity violation at %T in %s", instr, instr.Parent().String())] = true
@@ -398,13 +403,19 @@ func runEscape(j *Job, out *Out, workDir string) {
 			eo.Err = err.Error()
 			return
 		}
+		// The fixpoint check comes first, straight after the analysis: the context walk below and the law and
+		// monotonicity probes all apply transfer functions again (in other contexts, on weakened graphs), which creates
+		// load nodes in the functions' shared node groups; a re-processing after them would see another state than
+		// the one the analysis left and report a false "not a fixpoint".
+		eo.NotFixed = escape.VerifReprocess(ea)
+		lap("reprocess")
 		for _, f := range escape.VerifSummarized(ea) {
 			eo.Summarized = append(eo.Summarized, f.String())
 			if escape.VerifOverflow(ea, f) {
 				eo.Overflow = append(eo.Overflow, f.String())
 				continue
 			}
-			eo.Hashes[f.String()] = fmt.Sprintf("%016x", escape.VerifHash(escape.VerifFinalGraph(ea, f)))
+			eo.Hashes[f.String()] = fmt.Sprintf("%016x", escape.VerifLabelSig(escape.VerifFinalGraph(ea, f)))
 			nn, ne := escape.VerifSize(escape.VerifFinalGraph(ea, f))
 			eo.Counts["summary_nodes"] += nn
 			eo.Counts["summary_edges"] += ne
@@ -413,11 +424,6 @@ func runEscape(j *Job, out *Out, workDir string) {
 		lap("hash")
 		localityWalk(eo, state, st, prog, goRoots(prog, state))
 		lap("walk")
-		// The fixpoint check comes before the law and monotonicity probes: those apply transfer functions to
-		// weakened graphs and summaries, which creates load nodes in the functions' shared node groups and would
-		// make a later re-processing see another state than the analysis left.
-		eo.NotFixed = escape.VerifReprocess(ea)
-		lap("reprocess")
 		rng := &lawRng{x: uint64(j.LawSeed)*0x9e3779b97f4a7c15 + 1}
 		if j.Laws > 0 {
 			checkLaws(eo, ea, rng, j.Laws)
